@@ -390,6 +390,10 @@ def handle : List String → String
     match parseUnits h with
     | some u => toHex (internalizeString u)
     | none => "bad-op"
+  | ["tagname", h] =>              -- the JavaScript property name a `js:"…"` tag denotes (tag_key_spec): its UTF-16 form
+    match parseHex h with
+    | some s => units16 (externalizeString s)
+    | none => "bad-op"
   | ["rtstr", h] =>                -- internalize (externalize s)
     match parseHex h with
     | some s => toHex (internalizeString (externalizeString s))
